@@ -58,7 +58,8 @@ def form_kind(f):
 
 def run(ctx):
     prog = ctx.prog
-    ctx.decided = ['D1 specification plumbing: specified T/P reach the thermal condition on every normal path, stored values have the sink\'s kind, '
+    ctx.decided = ['D2 every equilibrium component object built by the solver receives the solver\'s own property package (never the global default)',
+                   'D1 specification plumbing: specified T/P reach the thermal condition on every normal path, stored values have the sink\'s kind, '
                    'VLE.__call__ dispatch passes like to like and is exhaustive']
     ctx.not_decided = ['residuals of V/H/S specifications', 'iso-fugacity and phase-boundary clauses', 'agreement with Rachford-Rice', 'flow scaling']
     d1 = ctx.rule('D1', 'specified T/P stored; kinds of values stored into T/P sinks', floor=30)
@@ -165,6 +166,8 @@ def run(ctx):
                         p.ret_node if p.ret_node is not None else f.node)
 
     dispatch(ctx, d2, vle)
+    d3 = ctx.rule('D2', 'solver components are built on the stream\'s own property package', floor=2)
+    thermo_propagation(ctx, d3, vle)
 
 
 def dispatch(ctx, d2, vle):
@@ -232,3 +235,38 @@ def dispatch(ctx, d2, vle):
                     d2.fail(cons, 'fallback-%s' % miss[0], 'the NoEquilibrium fallback does not store the specified %s' % miss[0], f, f.node)
                 else:
                     d2.ok(cons, 'NoEquilibrium fallback stores the specified %s' % sorted(got & {'T', 'P'}), f)
+
+
+def thermo_propagation(ctx, d3, vle):
+    """A constructor with an optional `thermo` parameter falls back to the global settings when it is omitted.
+    Inside a solver that owns a property package every such call must pass it, otherwise bubble and dew
+    computations of one flash use different models."""
+    prog = ctx.prog
+    for f in vle.methods.values():
+        if f.cls is not vle:
+            continue
+        for n in walk_no_nested(f.node):
+            if not (isinstance(n, ast.Call) and isinstance(n.func, ast.Name) and n.func.id in prog.classes):
+                continue
+            c = prog.classes[n.func.id][0]
+            ctor = prog.find_method(c, '__new__') or prog.find_method(c, '__init__')
+            if ctor is None or 'thermo' not in ctor.params:
+                continue
+            pos = ctor.params.index('thermo') - 1
+            arg = None
+            if len(n.args) > pos:
+                arg = n.args[pos]
+            for k in n.keywords:
+                if k.arg == 'thermo':
+                    arg = k.value
+            cons = 'VLE.%s' % f.name
+            if arg is None:
+                d3.fail(cons, 'default-thermo-%s' % n.func.id, '%s(...) is built without the solver\'s property package and silently uses the global default one'
+                        % n.func.id, f, n)
+                continue
+            a = src(arg)
+            defs = [x for x in walk_no_nested(f.node) if isinstance(x, ast.Assign) and any(isinstance(t, ast.Name) and t.id == a for t in x.targets)]
+            if a in ('self._thermo', 'self.thermo') or (defs and all(src(x.value) in ('self._thermo', 'self.thermo') for x in defs)):
+                d3.ok(cons, '%s(...) receives the solver\'s own property package' % n.func.id, f, n)
+            else:
+                d3.fail(cons, 'foreign-thermo-%s' % n.func.id, '%s(...) receives %s, which is not the solver\'s property package' % (n.func.id, a), f, n)
